@@ -7,7 +7,8 @@ PROP_FILE = "C05"
 RULE = ("well-formed seed messages for every command (several member subsets each, built from the specification tables) crossed with every single "
         "fault: removal of each required parameter and each required nested member, truncation at every byte offset, each key duplicated, each "
         "integer/length head re-encoded non-minimally (all wider widths), each container made indefinite-length, each member value replaced by a "
-        "value of every other data type, each bounded member pushed one past its limit; plus all 256 command bytes. The implementation's status "
+        "value of every other data type, each bounded member pushed one past its limit; plus all 256 command bytes; plus robustness inputs on every seed (surplus bytes after a "
+        "complete map, map heads announcing one entry fewer / more, random byte edits) whose rejection status must lie in the three-element set. The implementation's status "
         "must equal the model's and must equal the status the fault class calls for (0x01 / 0x14 / 0x12). Non-trivial = distinct faulty message")
 ASSUMPTIONS = ["sign changes of signed-integer members and null for text-struct Option members are not faults (excluded as in the property)"]
 TECHNIQUE = "Coq proof: status range and status/fault-kind equivalences for all inputs; missing required member -> MissingParameter, duplicated key -> InvalidCbor (entry-loop theorems, any entry order); the decoder's verdict depends only on the bytes read, hence EVERY proper prefix of the encoding of every well-typed parameter value is InvalidCbor (truncation theorem, via totality + round trip); error-mapping tables regenerated from /repo; differential fault enumeration with a fault-class oracle"
@@ -102,12 +103,17 @@ def cases(tier, rng, schema, feats):
                     if isinstance(node, int) and not isinstance(node, bool) and tn in ("uint", "nint"):
                         continue  # sign change of an integer member is not asserted
                     add(cmd, mutate.replace(tree, path, other), "type")
-    # one past the limit for bounded members
-    for cmd, (variant, t) in REQUESTS.items():
-        d = schema[t]
-        base = g.named_wire(t, present="all")
-        for path, node in mutate.paths(base):
-            pass
+        # robustness inputs on the same seed: whatever they are rejected with must be one of the three codes
+        # (a) surplus bytes after the complete parameter map (cbor_deserialize ignores them: still accepted)
+        for extra in (b"\x00", b"\xff", b"\xa0", rng.bytes(1 + rng.below(8))):
+            add(cmd, enc + extra, "robust")
+        # (b) the map head announcing fewer entries than present (the rest becomes surplus), or more (-> end of input)
+        if isinstance(tree, cbor.M) and 1 <= len(tree.pairs) < 23:
+            add(cmd, bytes([0xA0 + len(tree.pairs) - 1]) + enc[1:], "robust")
+            add(cmd, bytes([0xA0 + len(tree.pairs) + 1]) + enc[1:], "robust")
+        # (c) random byte-level edits
+        for mb in mutate.byte_mutations(rng, enc, 12 if tier == "quick" else 60):
+            add(cmd, mb, "robust")
     return out
 
 
